@@ -299,10 +299,15 @@ def _einsum(cx, node, args, kw):
                 ins = s.split(',')
                 letters = ''.join(ins)
                 nd = len([c for c in sorted(set(letters)) if letters.count(c) == 1])
+    ops = [a for a in args[1:]] if (args and args[0].only('str')) else list(args)
+    if len(ops) <= 1:
+        # a single operand without summation is returned as a VIEW (transposition / diagonal / identity)
+        x = ops[0] if ops else BOT
+        return cx.view(x, nd, 'einsum of a single operand', may=True)
     return arr(nd) if nd != 0 else AV(['arr', 'num'], ndim=0)
 
 
-F('numpy.einsum opt_einsum.contract', 'fresh', _einsum)
+F('numpy.einsum opt_einsum.contract', 'fresh with >= 2 operands | may-view-of(1) with a single operand', _einsum)
 F('numpy.kron', 'fresh', lambda cx, n, a, k: arr(max(a[0].ndim, a[1].ndim) if (len(a) == 2 and a[0].ndim is not None and a[1].ndim is not None) else None))
 F('numpy.outer', 'fresh', lambda cx, n, a, k: arr(2))
 F('numpy.tensordot numpy.tile numpy.repeat numpy.cross', 'fresh', fresh_arr())
@@ -601,6 +606,8 @@ LIBATTR['builtins.Ellipsis'] = const_av(Ellipsis)
 LIBATTR['builtins.__name__'] = STR
 
 BUILTIN_NAMES = set(dir(_b))
+KNOWN_ROOTS = {'numpy', 'scipy', 'opt_einsum', 'itertools', 'functools', 'pickle', 'time', 'copy', 'builtins', 'teneva',
+               'numba', 'math', 'warnings'}
 
 # ------------------------------------------------------------------------------------------------
 # methods.  Handler: fn(cx, node, recv, args, kw) -> AV
